@@ -320,7 +320,7 @@ Emit ==
     EmitHist /\
     (EMIT /\ stage' = "done") =>
         IF MODE = "history" THEN TRUE
-        ELSE IF MODE = "format" THEN PrintT("SCRIPT " \o ToJson([fam |-> "format", kind |-> "tree", lhs |-> ScriptOf(f'.abs, K, f'.lay)]))
+        ELSE IF MODE = "format" THEN PrintT("SCRIPT " \o ToJson([fam |-> "format", kind |-> "tree", k |-> K, lhs |-> ScriptOf(f'.abs, K, f'.lay)]))
         ELSE IF MODE = "fault"
         THEN (sched' = <<>>) =>       \* one fault-sweep script per tree: the harness enumerates the plans over the real run's LP calls
              /\ PrintT("SCRIPT " \o ToJson([fam |-> "afftree", k |-> K, q |-> 1, mode |-> "history", lhs |-> ScriptOf(f'.abs, K, f'.lay),
